@@ -143,13 +143,23 @@ var pgTypeAliases = map[string][]string{
 	"INT2":        {"SMALLINT"},
 	"STRING":      {"TEXT"},
 	"VARCHAR(64)": {"VARCHAR(64)"},
+	"VARCHAR(128)":  {"VARCHAR(128)"},
+	"DECIMAL(10,2)": {"DECIMAL(10,2)", "NUMERIC(10,2)"},
+	"DECIMAL(12,4)": {"DECIMAL(12,4)"},
 	"BOOL":        {"BOOLEAN", "BOOL"},
 	"TIMESTAMP":   {"TIMESTAMP"},
 	"FLOAT8":      {"DOUBLE PRECISION", "FLOAT8"},
 	"DATE":        {"DATE"},
 }
 
-var pgTypes = []string{"INT8", "INT4", "INT2", "STRING", "VARCHAR(64)", "BOOL", "TIMESTAMP", "FLOAT8", "DATE"}
+var pgTypes = []string{"INT8", "INT4", "INT2", "STRING", "VARCHAR(64)", "BOOL", "TIMESTAMP", "FLOAT8", "DATE", "VARCHAR(128)", "DECIMAL(10,2)", "DECIMAL(12,4)"}
+
+// typeSibling: the same base type with other parameters (width, precision, scale)
+var typeSibling = map[string]string{
+	"VARCHAR(64)": "VARCHAR(128)", "VARCHAR(128)": "VARCHAR(64)", "DECIMAL(10,2)": "DECIMAL(12,4)", "DECIMAL(12,4)": "DECIMAL(10,2)",
+	"varchar(64)": "varchar(255)", "varchar(255)": "varchar(64)", "decimal(10,2)": "decimal(12,4)", "decimal(12,4)": "decimal(10,2)",
+	"decimal(5,3)": "decimal(10,2)",
+}
 
 var sqliteTypes = []string{"INTEGER", "TEXT", "REAL", "BLOB"}
 
